@@ -23,6 +23,7 @@ from .. import sched
 from .. import values as V
 from ..runner import fork_call
 
+WATCHDOG = {'quick': 1500, 'thorough': 4 * 3600}
 LEVEL = 'exploration'
 RULE = ('scenarios of 2-3 threads doing first-use prints of lazily registered types (uuid.UUID alone/nested, Enum member, pure paths through a superclass, a harness-defined deferred class and its subclass), '
         'an uncached subclass dispatch against a registering print, struct sequences, and warm repeated prints of commented values and long strings; every schedule with ONE preemption at every package '
@@ -343,7 +344,7 @@ def judge(sh, name, spec, res, refs, ref_warnings):
 
 def run_shard(sh):
     quick = sh.tier == 'quick'
-    names = list(SCENARIOS) + ['R:%d:%d' % (sh.seed, i) for i in range(8 if quick else 400)]
+    names = list(SCENARIOS) + ['R:%d:%d' % (sh.seed, i) for i in range(8 if quick else 150)]
     # sequential references and solo step counts (every shard needs them; cheap)
     refs, refw, nsteps = {}, {}, {}
     for name in names:
@@ -380,7 +381,7 @@ def run_shard(sh):
                 others = [b for b in range(len(progs)) if b != a]
                 if len(progs) == 2:
                     # quick: the two long scenarios that touch no registry state on first use are sampled 1:6
-                    stride = 12 if quick and name.startswith(('S4', 'S5')) else (4 if quick and name.startswith(('S9', 'S10', 'S13', 'S14')) else 1)
+                    stride = (12 if quick else 3) if name.startswith(('S4', 'S5')) else (4 if quick and name.startswith(('S9', 'S10', 'S13', 'S14')) else 1)
                     if rand:
                         stride = 25 if quick else 5
                     for k in range(1, n_a + 1, stride):
@@ -399,9 +400,9 @@ def run_shard(sh):
                             jobs.append((name, ('at+call', a, k, others[0], jb), fs))
                 # two preemptions: A preempted at k1, B preempted the n-th time it is inside a registry function
                 if len(progs) == 2 and not rand:
-                    k1s = range(1, n_a + 1, 150 if quick else 6)
+                    k1s = range(1, n_a + 1, 150 if quick else (40 if name.startswith(('S4', 'S5')) else 10))
                     for k1 in k1s:
-                        for nth in (range(1, 40, 9) if quick else range(1, 120, 2)):
+                        for nth in (range(1, 40, 9) if quick else range(1, 120, 4)):
                             jobs.append((name, ('at+infunc', a, k1, others[0], nth), fs))
         if len(progs) == 3:
             total = sum(v for (n_, a_, f_), v in nsteps.items() if n_ == name and not f_)
